@@ -52,7 +52,7 @@ def build():
     with open(os.path.join(BUILD, ".lock"), "w") as lk:
         fcntl.flock(lk, fcntl.LOCK_EX)
         hdir = os.path.join(ROOT, "harness")
-        if REPO != "/repo":
+        if REPO != "/repo" or OUT != ROOT:
             # a private copy of the harness whose path dependencies point at the tree under test
             hdir = os.path.join(BUILD, "harness")
             os.makedirs(os.path.join(hdir, ".cargo"), exist_ok=True)
